@@ -152,6 +152,82 @@ fn signed_zero_probe<T: Sc>(rep: &mut Report) {
     }
 }
 
+/// Beyond the universe TLC enumerates: MANY basis functions (M = 25 / 33 well conditioned columns of a
+/// truncated Fourier series, N = 120 irregular samples).  No exact oracle here; the optimum is certified
+/// by its normal equations (the weighted residual is orthogonal to every weighted basis function), the
+/// residual is recomputed, and the parallel problem is compared with the sequential one.
+fn many_functions_probe<T: Sc>(rep: &mut Report) {
+    if T::NAME != "f64" {
+        return; // certificates below are calibrated for f64
+    }
+    for (h, weighted, mrhs) in [(12usize, false, false), (16, true, false), (12, true, true)] {
+        let n = 120usize;
+        let model0 = FourierModel::<T>::new(n, h, 1.0);
+        let m = 2 * h + 1;
+        let s = if mrhs { 3 } else { 1 };
+        let w: Option<Vec<T>> = if weighted { Some((0..n).map(|i| T::of64(0.5 + ((i * 7) % 11) as f64 / 8.0)).collect()) } else { None };
+        // data: a fixed combination of the basis at w = 1.05 plus a deterministic perturbation
+        let ptrue = model0.phi64(1.05);
+        let y = DMatrix::from_fn(n, s, |i, q| {
+            let mut v = 0.0;
+            for j in 0..m {
+                v += ptrue[(i, j)] * (((j * 5 + q * 3) % 7) as f64 - 3.0) / (1.0 + j as f64);
+            }
+            T::of64(v + 0.01 * ((i * 13 + q) % 17) as f64)
+        });
+        let mk = |par: bool| build_problem(FourierModel::<T>::new(n, h, 1.0), mrhs, par, &y, w.as_deref(), None);
+        let (Ok(mut seq), Ok(mut par)) = (mk(false), mk(true)) else {
+            rep.tool_error("many functions probe: cannot build".into());
+            continue;
+        };
+        for wv in [1.0f64, 0.93, 1.05] {
+            let flav = format!("many functions probe M={} N={} S={} weighted={} w={}", m, n, s, weighted, wv);
+            let det = |what: &str, dv: f64| json!({"flavour": flav, "what": what, "dev": dv});
+            seq.set_params(&[T::of64(wv)]);
+            par.set_params(&[T::of64(wv)]);
+            let (os, op) = (observe(seq.as_ref()), observe(par.as_ref()));
+            let present = |o: &Obs<T>| o.c.is_some() && o.r.is_some() && o.j.is_some();
+            rep.check("C01", present(&os), 0.0, || det("coefficients / residuals / Jacobian absent although the model evaluates (sequential)", 0.0));
+            rep.check("C11", present(&op) == present(&os), 0.0, || det("parallel problem exposes something else than the sequential problem", 0.0));
+            if present(&os) && present(&op) {
+                let dv = obs_close(&os, &op);
+                rep.check("C11", dv <= 1e-9, dv, || det("parallel problem differs from the sequential problem", dv));
+            }
+            if let (Some(cm), Some(r)) = (&os.cm, &os.r) {
+                let phi = model0.phi64(wv);
+                let wi = |i: usize| w.as_ref().map(|w| w[i].to64()).unwrap_or(1.0);
+                let ymax = y.iter().fold(0.0f64, |mx, v| mx.max(v.to64().abs()));
+                let mut worst_r = 0.0f64;
+                let mut worst_ne = 0.0f64;
+                for q in 0..s {
+                    let mut rr = vec![0.0f64; n];
+                    for i in 0..n {
+                        let mut fit = 0.0;
+                        for j in 0..m {
+                            fit += phi[(i, j)] * cm[(j, q)].to64();
+                        }
+                        rr[i] = wi(i) * (y[(i, q)].to64() - fit);
+                        worst_r = worst_r.max((r[q * n + i].to64() - rr[i]).abs() / ymax);
+                    }
+                    // normal equations: (W Phi)^T r = 0
+                    for j in 0..m {
+                        let mut dot = 0.0;
+                        let mut nrm = 0.0;
+                        for i in 0..n {
+                            dot += wi(i) * phi[(i, j)] * rr[i];
+                            nrm += (wi(i) * phi[(i, j)]).powi(2);
+                        }
+                        worst_ne = worst_ne.max(dot.abs() / (nrm.sqrt() * ymax * (n as f64).sqrt()));
+                    }
+                }
+                rep.check("C02", worst_r <= 1e-9, worst_r, || det("residuals differ from W(Y - Phi C) recomputed from the coefficients", worst_r));
+                rep.check("C01", worst_ne <= 1e-9, worst_ne, || det("coefficients violate the normal equations: the residual is not orthogonal to the weighted basis functions", worst_ne));
+            }
+        }
+        rep.count("many_functions_probes", 1);
+    }
+}
+
 /// health of the decomposition of W*Phi at every tabulated parameter vector of a (twin) table
 fn health_of_table<T: Sc>(table: &Table<T>, w: Option<&[T]>) -> Vec<bool> {
     table
@@ -1170,6 +1246,7 @@ pub fn run(path: &str, opts: &Opts) -> Report {
     let mut total = Report::new();
     signed_zero_probe::<f64>(&mut total);
     signed_zero_probe::<f32>(&mut total);
+    many_functions_probe::<f64>(&mut total);
     total.count("export_lines", parsed.len() as u64);
     for r in reports {
         total.merge(r);
